@@ -189,6 +189,10 @@ impl AllocationQueue {
 
     pub fn resume(&mut self) {
         self.state = AllocationQueueState::Active;
+        // Forget the failure streaks that might have paused the queue, otherwise the queue
+        // would be paused again on the next tick without attempting any submission.
+        self.rate_limiter.allocation_fails = 0;
+        self.rate_limiter.submission_fails = 0;
     }
 
     pub fn manager(&self) -> &ManagerType {
